@@ -31,6 +31,14 @@ CLAIMED = {
             "multi-line texts with comments, multi-line strings, continuations, nested sections and includes, one injected error per token position; language model gives the offending token; diagnostics (count, file, line) compared",
             "Message texts are not compared; the model's notion of the offending token is the one of DESIGN 5.C06.",
             "property-based testing (Hypothesis) with systematic per-position error injection against a reference lexer+parser model"),
+    "C12": ("exploration", "5.C12",
+            "metamorphic: accepted texts x every item boundary at every depth x generated well-formed unknown items (recursive, depth <= 6, directed 10^k nesting); same result with the flag, rejection with diagnostic without it",
+            "Only well-formed unknown items; base texts are those the reference model accepts.",
+            "metamorphic property-based testing (Hypothesis recursive generator of unknown items, insertion at every boundary)"),
+    "C15": ("exploration", "5.C15",
+            "metamorphic: comment / white-space forms inserted at every token boundary of accepted and rejected texts leave return code and values unchanged; annotation text, print and re-parse checked against the lexer model",
+            "Annotation inheritance is judged only in the positive direction stated by the property.",
+            "metamorphic property-based testing (Hypothesis), insertion at every token boundary, lexer model for the expected annotation"),
 }
 PENDING = {}
 props = [json.loads(l) for l in open(os.path.join(V, "properties.jsonl"))]
